@@ -21,7 +21,13 @@ def make_jobs(inst, rng, n):
             lost = 0.1
         if i % 10 == 9:
             rp = {"dry_run": "yes"}
-        jobs.append({"sched": {"seed": rng.randrange(1 << 30), "statuses": ["PASS", "FAIL", "ERROR", "WARN", "SKIP"], "weights": [8, 2, 1, 1, 1], "lost": lost},
+        persist = {}
+        if i % 3 == 1:
+            # persistent failure (or never-reported result) of one test or of one creation step
+            t = rng.choice(sorted(inst.const["tests"]))
+            kind = "pre" if inst.const["tests"][t]["objroot"] and rng.random() < 0.5 else "main"
+            persist = {"%s|%s" % (t, kind): rng.choice(["FAIL", "ERROR", "LOST"] if lost else ["FAIL", "ERROR"])}
+        jobs.append({"sched": {"seed": rng.randrange(1 << 30), "statuses": ["PASS", "FAIL", "ERROR", "WARN", "SKIP"], "weights": [8, 2, 1, 1, 1], "lost": lost, "persist": persist},
                      "store": D.random_store(inst, rng, rng.choice([0.0, 0.4, 0.8])), "run_params": rp, "cap": 20000 if lost else 6000, "lost": lost > 0})
     return jobs
 
@@ -65,7 +71,7 @@ def run(tier, seed):
            [("tut13x2", None, 300), ("tut13x2", slow, 150), ("tut13x3", slow, 100), ("tut13x3", None, 300), ("tut13r", None, 250), ("guix2", None, 250), ("getx2", None, 200), ("tut13c", None, 200),
             ("tut1x1", None, 150), ("tut13x4", None, 150)]
     return D.generic_run(PID, tier, seed, plan, make_jobs, signature, describe, explore_plan=D.explore_plan(tier, ['Completed'], lost=True), settings_of=settings_of, post=post,
-                         rule="randomized timing/outcomes incl. never-reported results, max_tries {1,2,3}, restricted workers, dry runs, initial pools; "
+                         rule="randomized timing/outcomes incl. never-reported results and persistent failure / persistent loss of one test or creation step, max_tries {1,2,3}, restricted workers, dry runs, initial pools; "
                               "step watchdog of 6000 events; TLC validates completion, definite results, executed-at-least-once, dry-run inertness")
 
 
